@@ -28,6 +28,13 @@ Definition origin_eqb (a b : origin) : bool :=
   | ONone, ONone | OBackend, OBackend | ODefault, ODefault | OForced, OForced => true
   | _, _ => false
   end.
+Definition interim_eqb (a b : interim) : bool :=
+  match a, b with
+  | NoInterim, NoInterim | I100, I100 | I103, I103 | I101, I101 => true
+  | _, _ => false
+  end.
+Lemma interim_eqb_eq a b : interim_eqb a b = true -> a = b.
+Proof. destruct a, b; cbn; intros H; (reflexivity || discriminate). Qed.
 Lemma sstate_eqb_eq a b : sstate_eqb a b = true -> a = b.
 Proof. destruct a, b; cbn; intros H; (reflexivity || discriminate). Qed.
 Lemma phase_eqb_eq a b : phase_eqb a b = true -> a = b.
@@ -44,7 +51,7 @@ Definition stream_eqb (a b : stream) : bool :=
   &&&& Bool.eqb (s_fcons a) (s_fcons b) &&&& Nat.eqb (s_attempts a) (s_attempts b)
   &&&& Bool.eqb (s_ka a) (s_ka b) &&&& origin_eqb (s_origin a) (s_origin b)
   &&&& Bool.eqb (s_done a) (s_done b) &&&& Bool.eqb (s_clean a) (s_clean b)
-  &&&& Bool.eqb (s_ropen a) (s_ropen b).
+  &&&& Bool.eqb (s_ropen a) (s_ropen b) &&&& interim_eqb (s_interim a) (s_interim b).
 Definition conn_eqb (a b : conn) : bool :=
   Bool.eqb (c_int_w a) (c_int_w b) &&&& Bool.eqb (c_ev_w a) (c_ev_w b)
   &&&& Bool.eqb (c_ftimer a) (c_ftimer b) &&&& Bool.eqb (c_btimer a) (c_btimer b)
@@ -63,6 +70,7 @@ Ltac to_eqs :=
          | E : sstate_eqb _ _ = true |- _ => apply sstate_eqb_eq in E
          | E : phase_eqb _ _ = true |- _ => apply phase_eqb_eq in E
          | E : origin_eqb _ _ = true |- _ => apply origin_eqb_eq in E
+         | E : interim_eqb _ _ = true |- _ => apply interim_eqb_eq in E
          end.
 
 Lemma stream_eqb_eq a b : stream_eqb a b = true -> a = b.
@@ -96,13 +104,13 @@ Definition all_causes : list cause :=
 
 Definition all_inputs : list input :=
   [IReqHead; IReqHeadBody; IReqBodyEnd; IConnect None] ++ map (fun k => IConnect (Some k)) all_causes ++
-  [IReqSent; IBackPartial; IBackHead; IBackEnd; IBackNoKeepAlive; IBackClose; IBackGarbage;
+  [IReqSent; IBack1xx false; IBack1xx true; IBack101; IBackPartial; IBackHead; IBackEnd; IBackNoKeepAlive; IBackClose; IBackGarbage;
    IFrontWrite true; IFrontWrite false; IFrontTimeout; IBackTimeout; IClientClose].
 
 Lemma all_inputs_complete : forall i, In i all_inputs.
 Proof.
   intros i; unfold all_inputs, all_causes; cbn.
-  destruct i as [ | | | [k|] | | | | | | | | [|] | | | ]; try destruct k;
+  destruct i as [ | | | [k|] | | [|] | | | | | | | | [|] | | | ]; try destruct k;
     repeat (try (left; reflexivity); right).
 Qed.
 
@@ -161,6 +169,7 @@ Definition mon_step (m : mon) (e : ev) : option mon :=
   | EvRelayEnd => if m_done m then None else Some (mkM true (m_started m))
   | EvDefault _ => if m_done m || m_started m then None else Some (mkM true false)
   | EvAbort _ => if m_done m then None else Some (mkM true (m_started m))
+  | EvUpgrade => if m_done m then None else Some (mkM true (m_started m))
   | _ => Some m
   end.
 
@@ -180,7 +189,7 @@ Qed.
 (** monitor state that corresponds to a model state (ghost fields) *)
 Definition mon_of (x : st) : mon :=
   let s := fst x in
-  mkM (s_done s) (match s_origin s with OBackend => s_bcons s | _ => false end).
+  mkM (s_done s) (match s_origin s, s_interim s with OBackend, NoInterim => s_bcons s | _, _ => false end).
 
 (** agreement of the monitor with the ghost fields ([started] is irrelevant once done) *)
 Definition mon_agree (a b : mon) : bool :=
